@@ -2,9 +2,11 @@ import Driver.Common
 import Driver.C18
 import Driver.C17
 import Driver.LeakyBucket
+import Driver.C19
 import RactorModel.Lemmas.GenElection
 import RactorModel.Lemmas.GenAuth
 import RactorModel.Lemmas.GenLeakyBucket
+import RactorModel.Lemmas.GenFrame
 
 /-!
 `xdriver <model> <ops-file> <impl-file>` — differential unit test of the TRANSLATOR
@@ -15,7 +17,8 @@ generated definition does not compute what the code computes (translator or targ
 independently of the hand-written model. Lines of other op kinds are passed through.
 
 models: `x18` (`elect …` lines of the c18 harness), `x17` (`srv`/`srvstart`/`cli` lines of the
-c17 harness), `x15` (`lbnew`/`lbcheck`/`lbbump` lines of the leaky-bucket harness).
+c17 harness), `x15` (`lbnew`/`lbcheck`/`lbbump` lines of the leaky-bucket harness), `x19` (`checklen`,
+`encframe`, `const` lines of the c19 harness).
 -/
 
 namespace Driver.X
@@ -87,6 +90,26 @@ def step15 (st : St15) (op impl : String) : St15 × StepOut :=
     ({ st with s := s' }, { model := sh s', nontrivial := decide (s'.balance < st.s.balance) })
   | _ => (st, pass impl)
 
+/-! ### x19 -/
+open Driver.C19 in
+def step19 (_ : Unit) (op impl : String) : Unit × StepOut :=
+  match words op with
+  | ["const", "chunk"] => ((), { model := toString Generated.Frame.FRAME_READ_CHUNK_SIZE })
+  | ["const", "defaultmax"] => ((), { model := toString Generated.Frame.DEFAULT_MAX_INBOUND_FRAME_SIZE })
+  | ["checklen", len, max] =>
+    match len.toNat?, max.toNat? with
+    | some len, some max =>
+      let m := match Generated.Frame.checked_frame_length len max with
+        | .ok n => s!"ok {n}"
+        | .error e => s!"err {showErr (GenFrame.absErr e)}"
+      ((), { model := m, nontrivial := true })
+    | _, _ => ((), { model := "bad-op" })
+  | ["encframe", h] =>
+    match unhex? h with
+    | some p => ((), { model := hex (Generated.Frame.encode_network_message p []), nontrivial := true })
+    | none => ((), { model := "bad-op" })
+  | _ => ((), pass impl)
+
 end Driver.X
 
 def main (args : List String) : IO UInt32 := do
@@ -98,6 +121,7 @@ def main (args : List String) : IO UInt32 := do
       | "x18" => Driver.replay () Driver.X.step18 ops impl
       | "x17" => Driver.replay () Driver.X.step17 ops impl
       | "x15" => Driver.replay ({} : Driver.X.St15) Driver.X.step15 ops impl
+      | "x19" => Driver.replay () Driver.X.step19 ops impl
       | _ => do IO.eprintln s!"unknown model {model}"; return 2
     return (if t.diffs == 0 then 0 else 1)
   | _ =>
